@@ -170,6 +170,37 @@ def _has_call(e):
     return False
 
 
+def check_optional_truthiness(chk, sch):
+    """C18.K: whether an optional member is present must be tested by membership / `is None`, not by the truthiness of .get(): the empty string is a legal name"""
+    mod = chk.repo.module('model')
+    optional = {k for _t, members in sch.structs.items() for k, m in members.items() if getattr(m, 'optional', False)}
+    n = 0
+    for fname, func in mod.funcs.items():
+        names = c08.model_derived_names(func)
+        for node in walk_no_nested(func):
+            tests = []
+            if isinstance(node, (ast.If, ast.While, ast.IfExp)):
+                tests = [node.test]
+            for t in tests:
+                for c in ast.walk(t):
+                    operand = None
+                    if isinstance(c, ast.UnaryOp) and isinstance(c.op, ast.Not):
+                        operand = c.operand
+                    elif isinstance(c, ast.BoolOp):
+                        for v in c.values:
+                            if isinstance(v, ast.Call):
+                                operand = v
+                    elif c is t and isinstance(c, ast.Call):
+                        operand = c
+                    if isinstance(operand, ast.Call) and isinstance(operand.func, ast.Attribute) and operand.func.attr == 'get' and operand.args and const_str(operand.args[0]) in ('name',):
+                        n += 1
+                        chk.bad('C18.K', mod, fname, norm(operand)[:80],
+                                f'the presence of the optional member {const_str(operand.args[0])!r} is decided by the truthiness of {norm(operand)}: an assignment to the variable named "" (a legal '
+                                f'name) is then treated as a plain expression statement and reported as pointless, although deleting it changes the globals', node=operand)
+    if n == 0:
+        chk.ok('C18.K', "no optional `name` member is tested by truthiness (presence is a membership test)")
+
+
 def check_traversal(chk, sch):
     """C18.X by abstract execution: the use collector, the statement walker and the pointless-expression test applied to every expression model of depth <= 2"""
     from ..absint import Interp, ADict, AList, RaiseSig, reify
@@ -384,6 +415,7 @@ def run(chk):
     chk.guard('C18.M', c08.check_immutability, chk, ('model',), 'C18.M')
     chk.guard('C18.K', check_optional_keys, chk, sch)
     chk.guard('C18.X', check_traversal, chk, sch)
+    chk.guard('C18.K', check_optional_truthiness, chk, sch)
     chk.guard('C18.L', check_label_scopes, chk)
     chk.guard('C18.O', check_order, chk)
     chk.guard('C18.S', check_unused_scope, chk)
